@@ -41,6 +41,11 @@ type simConn struct {
 	rdl      time.Time
 	wdl      time.Time
 
+	auto       bool // free-running mode: the wire is delivered at once
+	rstPending bool // free-running mode: reset once the inbox is drained
+	consumed   int  // bytes the client has read
+	run        *Run
+
 	failWriteAt int // fail the n-th client write (1-based), 0 = never
 	nWrites     int
 	delivered   int // total bytes delivered to the client
@@ -73,8 +78,15 @@ func (c *simConn) Read(p []byte) (int, error) {
 		if len(c.inbox) > 0 {
 			n := copy(p, c.inbox)
 			c.inbox = c.inbox[n:]
+			c.consumed += n
+			if c.auto && c.run != nil {
+				c.run.onConsumed(c)
+			}
 			c.mu.Unlock()
 			return n, nil
+		}
+		if c.rstPending {
+			c.rst = true
 		}
 		if c.rst {
 			c.mu.Unlock()
@@ -130,6 +142,9 @@ func (c *simConn) Write(p []byte) (int, error) {
 		return 0, errSimWrite
 	}
 	c.master.onClientBytes(p)
+	if c.auto {
+		c.flushAuto()
+	}
 	return len(p), nil
 }
 
